@@ -407,7 +407,7 @@ def run(ctx):
     ctx.cov['shapes_wall_s'] = round(time.time() - t0, 1)
     # 4. boundary tuples of larger arrays
     t0 = time.time()
-    nbig = ctx.pick(25, 600)
+    nbig = ctx.pick(25, 300)
     for i in range(nbig):
         big_cycle(d, rng)
         if len(d.events) > 30000:
@@ -415,7 +415,7 @@ def run(ctx):
     ctx.cov['traces_validated_against_impl'] += nbig
     validate(ctx, d, 'big')
     # 5. random histories
-    nhist = ctx.pick(40, 1500)
+    nhist = ctx.pick(40, 600)
     for h in range(nhist):
         random_history(d, rng, rng.randint(15, 60))
         if len(d.events) > 40000:
